@@ -61,6 +61,11 @@ CHECKS = {
             "segmentation independence and no-panic are observed on every path.",
             "Byte serialisation, entry sizes and the RFC tables are harness data; Huffman padding/EOS rules are checked differentially against a bit-level reference decoder "
             "(not a TLA+ notion); arbitrary byte strings beyond the modelled representation families are not enumerated."),
+    'C19': ("H2Frame.tla (per-type parser checks in code order + checkFrameOrder refine the reactions RFC 7540 permits) and H2FrameWrite.tla (Write* -> abstract frame) "
+            "checked by TLC; every (frame, header-block state) edge serialized independently and read by the real Framer; every write vector byte-compared and read back",
+            "All frame types x stream-id classes x length/padding/flag classes x HEADERS/CONTINUATION states are enumerated at two read limits; the real outcome must be in the "
+            "RFC-permitted set with the exact error code and scope; every frame is also truncated at every offset; all Write* boundary parameters round-trip byte-exactly.",
+            "Harness serializer trusted; random bit flips are sampled exploration; header-block validity is C13's."),
 }
 
 NOT_YET = {}
